@@ -285,7 +285,7 @@ DoSetOld        == \E i \in 1..Len(file.es) : SetOld(i)
 DoHandWrite     == \E es \in HandFiles : HandWrite(es)
 DoRead          == \E o \in objs : Read(o)
 DoModified      == \E o \in objs, s \in Names, r \in RawOk : Modified(o, s, r)
-DoModifiedObj   == \E o \in objs, s \in Names, r \in RawOk : ModifiedObj(o, s, r)
+DoModifiedObj   == \E o \in objs, s \in Names, r \in {"a", "ca", "d"} : ModifiedObj(o, s, r)
 DoModifiedNewKey == \E o \in objs : ModifiedNewKey(o)
 DoModifiedBad   == \E o \in objs, s \in Names : ModifiedBad(o, s)
 DoDuplicate     == \E o \in objs, kind \in CopyKinds : Duplicate(o, kind)
